@@ -806,7 +806,7 @@ func (v *view) oracleC03() {
 	}
 	// (ii) header-setting calls succeed before headers are sent and fail after
 	sent := false
-	known := true
+	known := len(v.r.Handler2) == 0 // with a concurrent sender the order of "set" and "sent" is not decided by the order in which the calls began
 	for _, ev := range v.ev {
 		if ev.Side != 'h' || ev.RSeq == 0 || !known {
 			continue
